@@ -155,7 +155,7 @@ def r14b(ctx):
         ve = a.variant_edges(j, 'core::option::Option<')
         none_edges += ve.get('0', []) + ve.get('otherwise', [])
     # which take flows to the returned value?
-    oks = [(b, si, e) for (b, si, k, e) in a.ret_sites() if k == 'ok']
+    oks = [(b, si, e) for (b, si, k, e) in a.ret_sites() if k != 'err']
     for tk in takes:
         dl = a.dest(tk)['l']
         name = a.flow.lname(dl)
@@ -216,14 +216,14 @@ def r14c(ctx):
     good = [m for m in ms if c16.is_field_of_self(a.arg(m, 0), 'deduplication_metrics') and flow.mentions(a.arg(m, 1), lambda z: z[0] == 'upvar' and z[1] == 'dedup_metrics' or z[0] == 'param' and z[2] == 'dedup_metrics')]
     ctx.check(len(good) == 1, 'R14c', rc, 'merge_in', a.loc(good[0]) if good else '-', 'session metrics merge_in(file metrics) present')
     if good:
-        oks = [(b, si) for (b, si, k, e) in a.ret_sites() if k == 'ok']
+        oks = [(b, si) for (b, si, k, e) in a.ret_sites() if k != 'err']
         ctx.check(all(a.cfg.must_pass(b, via_blocks=good) for (b, si) in oks) and bool(oks), 'R14c', rc, 'merge_in.dom', a.loc(good[0]),
                   'every Ok return of register_single_file_clean_completion is dominated by the merge of the file\'s metrics',
                   'a successful path skips merging the file\'s metrics into the session')
     # process_chunks merges block metrics into the deduper's
     ap = an(F.body(PC))
     ms = ap.calls('deduplication::dedup_metrics::DeduplicationMetrics::merge_in')
-    oks = [(b, si) for (b, si, k, e) in ap.ret_sites() if k == 'ok']
+    oks = [(b, si) for (b, si, k, e) in ap.ret_sites() if k != 'err']
     ctx.check(len(ms) == 1 and all(ap.cfg.must_pass(b, via_blocks=ms) for (b, si) in oks) and not any(ms[0] in l for l in ap.cfg.loops().values()), 'R14c', PC, 'merge_in', ap.loc(ms[0]) if ms else '-',
               'process_chunks merges the block metrics into the file metrics exactly once on every successful path (not in a loop)')
     # merge_in field pairing
